@@ -159,7 +159,8 @@ static void section_vtmf(const Args &A) {
 	for (unsigned i = 0; i < N; i++) {
 		bool qr = (i % 3 == 2);
 		bool canonical = (i % 3 == 1);
-		static const unsigned long FS[][2] = { {32, 16}, {40, 20}, {48, 24}, {64, 32}, {64, 40}, {56, 28}, {96, 48}, {33, 17} };
+		// psize - qsize >= 32: tmcg_mpz_lprime draws q once, a short cofactor range may contain no k with p = kq+1 prime of full size
+		static const unsigned long FS[][2] = { {48, 16}, {56, 20}, {64, 24}, {64, 32}, {72, 40}, {80, 40}, {96, 48}, {49, 17} };
 		const unsigned long *fs = FS[gen().below(8)];
 		size_t k = 1 + gen().below(6);
 		size_t w = 1 + gen().below(TMCG_MAX_TYPEBITS);
